@@ -13,6 +13,7 @@ import Gotree.Model.C04
 import Gotree.Model.C04HM
 import Gotree.Model.C04Q
 import Gotree.Model.C04Quartets
+import Gotree.Model.C04Depth
 
 namespace Gotree.C04
 open Gotree
@@ -209,5 +210,48 @@ def specSplitsHeader (tips : List String) : String := "Tree\t" ++ "|".intercalat
     branch), then a dot -/
 def specDumpLine (tips below : List String) : String :=
   String.ofList (((sortNames tips).reverse.map fun x => if below.contains x then '1' else '0') ++ ['.'])
+
+/-! ### node depths (`ComputeDepths`, last step of `ReinitIndexes`) -/
+
+/- distance from a node to the closest tip BELOW it (a node without children is a tip) -/
+mutual
+def downT : T → Int
+  | .node _ _ [] => 0
+  | .node _ _ (k :: ks) => 1 + downL (k :: ks)
+def downL : Kids → Int                      -- least `downT` of the children (-1 without children)
+  | [] => -1
+  | (_, t) :: r => let a := downT t; let b := downL r; if b == -1 || a < b then a else b
+end
+
+mutual
+def downPreT : T → List Int
+  | .node d p k => downT (.node d p k) :: downPreL k
+def downPreL : Kids → List Int
+  | [] => []
+  | (_, t) :: r => downPreT t ++ downPreL r
+end
+
+def minList (l : List Int) : Int := match l with | [] => 0 | x :: r => r.foldl min x
+
+/- "the length of the path from n to the closest tip" in an unrooted tree, by two passes, pre-order:
+   `up` = distance from the node to the closest tip that is not below it (none: the root of a tree whose root
+   is not a tip) -/
+mutual
+def sdT (up : Option Int) : T → List Int
+  | .node _ _ k =>
+    minList ((match up with | some u => [u] | none => []) ++ (if k.isEmpty then [0] else [1 + downL k])) :: sdL up k 0 k
+def sdL (up : Option Int) (all : Kids) (i : Nat) : Kids → List Int
+  | [] => []
+  | (_, t) :: r =>
+    let away := minList ((match up with | some u => [u] | none => []) ++ (all.eraseIdx i).map fun s => 1 + downT s.2)
+    sdT (some (1 + away)) t ++ sdL up all (i + 1) r
+end
+
+/-- the depth `Node.Depth()` must give after `ComputeDepths`, pre-order: in a rooted tree (root with two neighbours)
+    the distance to the closest tip below the node, else the distance to the closest tip in any direction (a root
+    with a single neighbour is itself a tip) -/
+def specDepths (t : T) : List Int :=
+  if t.kids.length == 2 then downPreT t
+  else sdT (if t.kids.length == 1 then some 0 else none) t
 
 end Gotree.C04
